@@ -35,13 +35,15 @@ def ob(oid, ok, detail="", line=0):
 
 
 def guarded_by(repo: Repo, module: str, cls: str, lock_expr: str, is_write, delegates=(), exempt=("__init__",),
-               yield_methods=()):
+               yield_methods=(), is_read=None):
     """Lock-discipline contract of a class:  guarded_by(lock) on its state.
 
     * every write site (is_write(node) -> description | None) in a method outside `exempt` is inside
       `async with <lock_expr>` of that method, unless the statement is a call to a method in `delegates`
       (which is itself checked);
-    * in each method of `yield_methods` (transactional context managers) every `yield` is inside the lock.
+    * in each method of `yield_methods` (transactional context managers) every `yield` is inside the lock;
+    * read-modify-write atomicity: in a method that writes, every read site (is_read(node) -> description | None) is
+      inside the lock as well (a value read before the lock is taken may be stale when it is written back).
     """
     m = repo.module(module)
     ci = m.classes[cls]
@@ -57,6 +59,15 @@ def guarded_by(repo: Repo, module: str, cls: str, lock_expr: str, is_write, dele
                 out.append(ob(f"{module}.{cls}.{name}/guarded-write:{desc}@L{n.lineno}", ok,
                               f"write `{ast.unparse(n)[:90]}` at line {n.lineno} of {cls}.{name} is "
                               f"{'inside' if ok else 'NOT inside'} `async with {lock_expr}`", n.lineno))
+        if is_read is not None and any(is_write(n) for n in ast.walk(fi.node)):
+            for n in ast.walk(fi.node):
+                desc = is_read(n)
+                if desc:
+                    ok = under_lock(n, par, lock_expr)
+                    out.append(ob(f"{module}.{cls}.{name}/guarded-read-before-write:{desc}@L{n.lineno}", ok,
+                                  f"{cls}.{name} writes the shared state; its read `{ast.unparse(n)[:90]}` at line "
+                                  f"{n.lineno} is {'inside' if ok else 'NOT inside'} `async with {lock_expr}` (a value "
+                                  f"read outside the lock may be stale when written back)", n.lineno))
         if name in yield_methods:
             for n in ast.walk(fi.node):
                 if isinstance(n, (ast.Yield, ast.YieldFrom)):
@@ -123,4 +134,21 @@ def close_requires_ownership(repo: Repo, module: str, cls: str, connect_call: st
                               f"`{var}.close()` at line {n.lineno} of {cls}.{name}: `{var}` comes from {connect_call}() "
                               f"and may be the shared connection {shared}; the close is "
                               f"{'guarded' if ok else 'NOT guarded'} by an ownership test", n.lineno))
+        # contextlib.closing(X) closes X when the with-block ends; `with X:` on a sqlite connection does not close it
+        for n in ast.walk(fi.node):
+            if isinstance(n, (ast.With, ast.AsyncWith)):
+                for item in n.items:
+                    ce = item.context_expr
+                    if isinstance(ce, ast.Call) and ast.unparse(ce.func).split(".")[-1] == "closing" and ce.args:
+                        a0 = ce.args[0]
+                        from_connect = (isinstance(a0, ast.Call) and ast.unparse(a0.func) == connect_call) or \
+                                       (isinstance(a0, ast.Name) and a0.id in conn_vars)
+                        if from_connect:
+                            var = ast.unparse(a0)
+                            ok = guard_ok(n, par, var)
+                            out.append(ob(f"{module}.{cls}.{name}/close-requires-ownership@L{n.lineno}", ok,
+                                          f"`closing({var})` at line {n.lineno} of {cls}.{name} closes a connection "
+                                          f"obtained from {connect_call}(), which may be the shared connection "
+                                          f"{shared}; it is {'guarded' if ok else 'NOT guarded'} by an ownership test",
+                                          n.lineno))
     return out
